@@ -1317,7 +1317,7 @@ def stage_oracle(ctx, env, G, only=None):
         ctx.log("Conv subclasses without a domain generator (generic terms used): %s" % missing)
         for name in missing:
             G[name] = generic_gen(env, name)
-    n_per = ctx.scale(30, 250)
+    n_per = ctx.scale(30, 350)
     stats = {}
     for name in names:
         if name not in G or (only and name not in only):
@@ -1396,7 +1396,7 @@ def canon_pair(env, ctx, label, ce, t1, t2, how):
 
 def stage_canon(ctx, env, only=None):
     T = env.term
-    n = ctx.scale(60, 700)
+    n = ctx.scale(60, 1000)
     for label, (ce, ty, ops) in NORMALISERS.items():
         if only and label not in only:
             continue
